@@ -823,7 +823,11 @@ class Node:
         """
         if with_clones:
             for c in self.get_clones():  # Excluding self
-                c.remove(keep_children=keep_children, with_clones=False)
+                # A clone may already be gone, if it was nested below another one
+                if c._tree is not None:
+                    c.remove(keep_children=keep_children, with_clones=False)
+            if self._tree is None:
+                return  # this node was nested below a clone and is gone already
             assert not self.is_clone()
 
         if keep_children:
